@@ -1265,6 +1265,25 @@ def t_molodensky(cx):
     adt = cx.f.lib["adts"].get("inner_op::molodensky::Molodensky")
     fields = [x["name"] for x in adt["variants"][0]["fields"]] if adt else []
     rt = E.return_term(f)
+
+    def inline_all(t, depth=0):
+        """replace calls of the module's own functions by what they return (a dispatcher over per-formula functions)"""
+        t = mir.strip_refs(t)
+        if depth > 6 or not isinstance(t, tuple):
+            return t
+        if t[0] == "call" and isinstance(t[1], str) and t[1].startswith("inner_op::molodensky::") and cx.f.has_fn(t[1]) and len(t) > 3:
+            try:
+                r = E.inline_call(f, t, None)
+            except Exception:
+                r = None
+            if r is not None:
+                return inline_all(r, depth + 1)
+            return t
+        if t[0] == "phi":
+            return (t[0], t[1], tuple(inline_all(o, depth + 1) for o in t[2]))
+        return t
+    if rt is not None:
+        rt = inline_all(rt)
     abr_atom = None
     if "abridged" in fields:
         abr_atom = ("proj", ("proj", ("arg", 1), "deref"), ("f", fields.index("abridged")))
